@@ -47,9 +47,7 @@ TRUSTED = ['pandas.merge on (key columns, row index): section variable of the mo
            'chunk sizes are injected by wrapping exetera.core.operations attributes with functools.partial (no source edit)']
 ASSUMPTIONS = ['hints are truthful; chunk sizes >= 1; every mapped indexed-string entry fits chunksize*value_factor bytes',
                'no run of equal keys on a trimmed side reaches the join chunk size (else the repaired get_next_chunk raises '
-               'a clear ValueError: known finding F-C02g, production chunk size 1<<20)',
-               'streamed path with duplicates of one key on BOTH sides produces a non-monotone map, outside the precondition of '
-               'ordered_map_valid*_stream: known finding F-C02f']
+               'a clear ValueError: known finding F-C02g, production chunk size 1<<20)']
 
 _np = _ops = _df = _session = _fields = None
 _h5 = {}
@@ -438,12 +436,9 @@ def spec_ok(case, impl, spec, mode):
 def equal(case, impl, expected, mode):
     if isinstance(expected, str):
         if expected.startswith('OOB'):
-            # inside F-C02f numba / numpy wrap a negative index where the model reports the access
-            return impl == 'EXC:IndexError' or (nonmonotone(case) and isinstance(impl, list))
+            return impl == 'EXC:IndexError'
         if expected == 'FUEL':
             return impl == 'HANG'
-        if expected == 'EXC:IndexError' and nonmonotone(case):
-            return impl == expected or isinstance(impl, list)
         return impl == expected
     return impl == expected
 
@@ -451,14 +446,9 @@ def equal(case, impl, expected, mode):
 def known(case, impl, model, spec, mode):
     if long_run(case) and impl == 'EXC:ValueError':
         return 'F-C02g'
-    if nonmonotone(case):
-        return 'F-C02f'
+    # F-C02f (a key duplicated on both sides: non-monotone b-side map) is repaired by work/E7/fix-F-C02f.diff:
+    # those cases are held to the specification like every other case, in every mode
     return None
-
-
-def skip(case, mode):
-    # compiled code reads out of bounds silently inside F-C02f; only the checked modes decide those cases
-    return mode == 'jit' and nonmonotone(case) and (case.get('mcs') or BIG) < BIG
 
 
 def features(case, model):
@@ -504,7 +494,7 @@ def features(case, model):
         if kind in ('ru', 'bu'): f.append('map-absent-chunked_copy')
         if long_run(case): f.append('long-run(F-C02g)')
         if entry_too_long(case): f.append('entry-longer-than-value-buffer(outside)')
-        if nonmonotone(case): f.append('nonmonotone-map(F-C02f)')
+        if nonmonotone(case): f.append('nonmonotone-map(F-C02f, fixed)')
         if isinstance(model, list):
             maps = [v for n, v in model[2] if n in AUX]
             n_out = len(maps[0]) if maps else 0
@@ -690,8 +680,9 @@ def gen(tier, rng):
             return xs
         lu, ru = rng.choice([(False, False), (True, False), (False, True), (True, True)])
         L, R = side(lu), side(ru)
-        if not lu and not ru and rng.random() < 0.8:
-            # keep most general-variant cases outside F-C02f: no key duplicated on both sides
+        if not lu and not ru and rng.random() < 0.4:
+            # general variant: part of the cases without a key duplicated on both sides (monotone b-side map), the rest
+            # many-to-many (non-monotone b-side map, F-C02f region, repaired)
             dl = {k for k in L if L.count(k) > 1}
             R = [k for i, k in enumerate(R) if not (k in dl and i > 0 and R[i - 1] == k)]
         c = _mk(rng.choice(['left', 'right', 'inner']), [True, lu, True, ru], L, R, cnt, cs)
@@ -725,8 +716,9 @@ TECHNIQUE = ('Coq proof about a faithful model of merge/_ordered_merge/_unordere
              'streamed join generators (C03) and map streams (C04) + exhaustive small-scope correspondence on real HDF5 frames')
 LEVEL_TEXT = ('Theorems in coq/Props/C02.v: the streamed path of the repaired merge equals the relational join (rows, key order, '
               'column lengths, names) for all sizes and chunk sizes, for every how in {left,right,inner} x every truthful '
-              'unique-hint pair with no hypothesis left about C03 or C04 (ordered_merge_total_all / ordered_merge_correct_all / '
-              'ordered_merge_is_relational_join instantiate C03 streamed_total for all eight generators; the copied side of the '
+              'unique-hint pair, keys repeated on both sides (many-to-many) included since fix-F-C02f, with no hypothesis left '
+              'about C03 or C04 (ordered_merge_total_all / ordered_merge_correct_all / ordered_merge_is_relational_join '
+              'instantiate C03 streamed_total for all eight generators and C04 for in-range maps in any order; the copied side of the '
               'right/left-unique variants is proved equal to the gather through all rows; equal column lengths and '
               'non-decreasing key order are separate corollaries); the pandas path is correspondence against the '
               'specification (pandas trusted).')
